@@ -109,8 +109,9 @@ def shard_main(pid, tier, seed_value, shard, n_examples, deadline_s, conn) -> No
         mod = load_prop(pid)
         findings = Findings()
         stats = Stats()
-        state = {"target": None, "last": None}
+        state = {"target": None, "last": None, "t_found": None}
         t_end = time.time() + deadline_s
+        shrink_budget = float(os.environ.get("VERIF_SHRINK_S", 45 if tier == "quick" else 240))
 
         phases = [Phase.generate, Phase.target, Phase.shrink]
 
@@ -130,12 +131,15 @@ def shard_main(pid, tier, seed_value, shard, n_examples, deadline_s, conn) -> No
             if state["target"] is None and time.time() > t_end:
                 stats.skipped_after_deadline += 1
                 return
+            if state["t_found"] is not None and time.time() - state["t_found"] > shrink_budget:
+                return  # shrinking budget used up: keep the smallest failing case seen so far
             fresh = evaluate(mod, case, stats, findings)
             for signature, message in fresh:
                 if signature not in stats.violations:
                     stats.violations[signature] = {"case": case, "message": message}
                 if state["target"] is None:
                     state["target"] = signature
+                    state["t_found"] = time.time()
                 if signature == state["target"]:
                     # keep the smallest case seen for the signature being shrunk
                     state["last"] = {"case": case, "message": message}
@@ -145,6 +149,9 @@ def shard_main(pid, tier, seed_value, shard, n_examples, deadline_s, conn) -> No
             the_test()
         except ViolationFound:
             pass
+        except hypothesis.errors.Flaky:
+            if state["target"] is None:
+                raise  # a genuinely flaky property is a harness problem
         except hypothesis.errors.FailedHealthCheck as exc:
             raise HarnessError(f"health check failed (fix the generator): {exc}") from exc
         if state["target"] is not None and state["last"] is not None:
